@@ -18,7 +18,7 @@ RULE = ('linkers over 1-4 submodels BUILT by fsic from C01-grammar programs (9 t
         'duplicates and an unknown id at each position; positive/negative/out-of-span t; min_iter 0..max_iter+2, max_iter 0..4 (and <0), '
         'tol in {1e-10, 0.5, 1, 0, 1e-300}, failures; exhaustive per-iteration move sequences (0, tol-1ulp, tol, tol+1ulp, 1.0 per check '
         'entry) up to the tier bound; non-finite values; raising hooks / submodels at every stage; offsets in and out of span; '
-        'multi-period solve(start=, end=) by label incl. defaults from the longest lag / lead, reversed and empty ranges, unknown labels, empty span; copies of a linker (copy() / copy.copy / copy.deepcopy): solve the copy or the original, the other stays untouched and nothing is shared; single-model linker vs bare model twins; constructor over every ordered pair of list / tuple / range / ndarray / pandas Index / PeriodIndex / DatetimeIndex spans (equal, one position different, shorter, empty) and random mixed-kind families. '
+        'multi-period solve(start=, end=) by label incl. defaults from the longest lag / lead, reversed and empty ranges, unknown labels, empty span; histories of 2-4 solve_t calls on one linker (other periods, other selections, other options; every call judged against the state the earlier calls left); copies of a linker (copy() / copy.copy / copy.deepcopy): solve the copy or the original, the other stays untouched and nothing is shared; single-model linker vs bare model twins; constructor over every ordered pair of list / tuple / range / ndarray / pandas Index / PeriodIndex / DatetimeIndex spans (equal, one position different, shorter, empty) and random mixed-kind families. '
         'Non-trivial = at least 2 iterations executed, or a stop exactly at k=min_iter or k=max_iter, or an exception path, or a '
         'constructor call over >= 2 submodels; distinct by hash of the whole case.')
 TRUSTED = ['scripted submodel / linker subclasses harness/scripted_linker.py (the same scripts are the Coq oracles of Linker/LinkerF.v); '
@@ -112,6 +112,21 @@ def impl(case):
         obs = _observe(L, subs, shared, case)
         obs['out'] = out if out is not None else ['ret', bool(r)]
         return obs
+    if kind == 'history':
+        # several solve_t calls on ONE linker: each call is observed on its own (events, snapshots, outcome, state after it)
+        steps = []
+        for call in case['calls']:
+            del shared[:]
+            L.__dict__['_selseen'] = []
+            L.__dict__['_snaps'] = []
+            for m in subs:
+                m.__dict__['_evlog'] = []
+            c2 = dict(case, opts=call['opts'], sel=call['sel'], t=call['t'])
+            r, out = _out_of(lambda: L.solve_t(call['t'], **_kw(c2)))
+            ob = _observe(L, subs, shared, case)
+            ob['out'] = out if out is not None else ['ret', bool(r)]
+            steps.append(ob)
+        return {'steps': steps, 'out': steps[-1]['out'] if steps else ['ret', False], 'log': [e for st in steps for e in st['log']]}
     if kind == 'copy':
         # a copy of the linker (copy() / copy.copy / copy.deepcopy) must be independent of the original: solve ONE of the two,
         # the other must stay exactly as it was (values, statuses, counters, nothing evaluated), and the solved one must
@@ -351,6 +366,12 @@ def c_case(case, obs):
             xr = '(Raise %s)' % EXN.get(obs['out'][1], 'OtherError')
         return '(CCtor %s %s %s)' % (subs, span, xr)
     s0 = c_lstate(case, case['core'], case['subs'], [])
+    if kind == 'history':
+        calls = lib.clist('(%s, %s, %s)' % (c_sel(c['sel']), c_opts(c['opts']), lib.cZ(c['t'])) for c in case['calls'])
+        last = obs['steps'][-1]
+        xs = c_lstate(case, last['core'], last['subs'], obs['log'])
+        return '(CHistory %s %s %s %s %s %s)' % (c_subscripts(case), c_lscripts(case.get('hooks', {})), calls, s0, xs,
+                                                 lib.clist(c_lout(st['out']) for st in obs['steps']))
     xs = c_lstate(case, obs['core'], obs['subs'], obs['log'])
     if kind in ('solve_t', 'copy'):
         return '(CSolveT %s %s %s %s %s %s %s %s)' % (c_subscripts(case), c_lscripts(case.get('hooks', {})), c_sel(case.get('sel')),
@@ -650,6 +671,15 @@ def oracle(case, obs):
     if kind == 'solve_t':
         _oracle_solve_t(case, obs, bad)
         return fails
+    if kind == 'history':
+        # the statement holds for EVERY call of a history, judged against the state the previous calls left (stale statuses and
+        # counters of earlier calls, submodels selected before and not now, ...)
+        before = None
+        for call, st in zip(case['calls'], obs['steps']):
+            c2 = dict(case, opts=call['opts'], sel=call['sel'], t=call['t'])
+            _oracle_solve_t(c2, st, bad, t=call['t'], before=before)
+            before = {'core': st['core'], 'subs': st['subs']}
+        return fails
     if kind == 'copy':
         _oracle_solve_t(case, obs, bad)               # the solved one (copy or original) obeys the statement like any linker
         oth = obs['other']
@@ -707,15 +737,28 @@ def oracle(case, obs):
         d = obs['direct']
         lk = obs['subs'][0]
         in_span = -n <= case['t'] < n
-        premises = (in_span and o['min_iter'] <= o['max_iter'] and o['offset'] == 0 and s.get('lags', 0) <= p < n - s.get('leads', 0)
-                    and _all_finite_case(s) and o['errors'] in ERRMODES and _ids(case) == [s['id']])
-        if premises:
+        # "solves it to the same statuses, iteration counts and values as solving that model directly": compared whenever the
+        # call is meaningful for both (t inside the span, a valid errors= value, the model selected); offset is finding #8
+        in_scope = in_span and o['offset'] == 0 and o['errors'] in ERRMODES and _ids(case) == [s['id']]
+        feasible = s.get('lags', 0) <= p < n - s.get('leads', 0)
+        if in_scope:
             a = (obs['out'][:2], lk['status'], lk['iters'], lk['vals'])
             b = (d['out'][:2], d['status'], d['iters'], d['vals'])
+            full = o['min_iter'] <= o['max_iter'] and feasible and _all_finite_case(s)
             if a != b:
-                bad('twin|differs', 'a linker wrapping one model and adding no equations differs from the bare model: linker %s / model %s'
-                    % ((obs['out'][:2], lk['status'][p], lk['iters'][p]), (d['out'][:2], d['status'][p], d['iters'][p])))
-            if (obs['core']['status'][p], obs['core']['iters'][p]) != (d['status'][p], d['iters'][p]) and not (obs['out'][0] == 'raise' and obs['out'][2]):
+                what = 'linker %s / model %s' % ((obs['out'][:2], lk['status'][p], lk['iters'][p]), (d['out'][:2], d['status'][p], d['iters'][p]))
+                if o['min_iter'] > o['max_iter']:
+                    bad('twin|no-min_iter>max_iter-guard', 'solve_t(min_iter > max_iter): the bare model raises ValueError and changes nothing, the '
+                        'linker wrapping it iterates and stamps: ' + what)
+                elif not feasible:
+                    bad('twin|no-feasibility-guard', 'period %d leaves no room for the model\'s lags/leads (%d/%d): the bare model raises IndexError '
+                        'and changes nothing, the linker wrapping it evaluates it (wrapped reads) and stamps: %s' % (p, s.get('lags', 0), s.get('leads', 0), what))
+                elif not _all_finite_case(s):
+                    bad('twin|no-error-policy', 'non-finite value / warning / exception inside _evaluate: the bare model applies errors=%r '
+                        '(SolutionError, status E / S, replacement), the linker wrapping it has no error policy: %s' % (o['errors'], what))
+                else:
+                    bad('twin|differs', 'a linker wrapping one model and adding no equations differs from the bare model: ' + what)
+            if full and (obs['core']['status'][p], obs['core']['iters'][p]) != (d['status'][p], d['iters'][p]) and not (obs['out'][0] == 'raise' and obs['out'][2]):
                 bad('twin|linker-stamp', 'the linker\'s own status/iterations differ from the model\'s')
         return fails
     raise AssertionError(kind)
@@ -725,6 +768,8 @@ def guard(case, obs):
     """Inputs inside the guard class of a kept finding: the model mirrors the defect there, K is silent."""
     if case['kind'] == 'ctor':
         return False
+    if case['kind'] == 'history':
+        return any(c['opts']['offset'] != 0 for c in case['calls'])
     return case['opts']['offset'] != 0           # finding #8: offset ignored by the linker
 
 
@@ -766,6 +811,13 @@ def shrink_candidates(case):
                 del c['subs'][i]
                 yield c
         return
+    if case['kind'] == 'history':
+        for i in range(len(case['calls'])):
+            if len(case['calls']) > 1:
+                c = copy.deepcopy(case)
+                del c['calls'][i]
+                c.update(sel=c['calls'][0]['sel'], opts=c['calls'][0]['opts'], t=c['calls'][0]['t'])
+                yield c
     # drop hooks, drop passes, drop unselected submodels, simplify options
     for pos, h in list(case.get('hooks', {}).items()):
         for fld in ('pre', 'post', 'before', 'after'):
@@ -775,7 +827,7 @@ def shrink_candidates(case):
                 yield c
     ids = _ids(case)
     for j, s in enumerate(case['subs']):
-        if s['id'] not in ids and not _hook_targets(case) and case['kind'] != 'twin':
+        if s['id'] not in ids and not _hook_targets(case) and case['kind'] not in ('twin', 'history'):
             c = copy.deepcopy(case)
             del c['subs'][j]
             yield c
@@ -900,7 +952,7 @@ def selection_cases(rng, max_subs):
             subs = []
             for i in ids:
                 passes = [[['set', 0, lib.fhex(float(min(k, settle + (i % 2))))]] for k in range(1, 6)]
-                subs.append(mk_sub(i, 2, n, [0], lags=rng.randint(0, 2), leads=rng.randint(0, 2), passes={str(p): passes}))
+                subs.append(mk_sub(i, 2, n, [] if rng.random() < 0.2 else [0], lags=rng.randint(0, 2), leads=rng.randint(0, 2), passes={str(p): passes}))
                 if rng.random() < 0.3:
                     subs[-1]['status'][p] = rng.choice(['.', 'F', 'E', 'S'])
                     subs[-1]['iters'][p] = rng.randint(0, 9)
@@ -941,7 +993,7 @@ def random_case(rng, kind='solve_t'):
     L = rng.randint(0, 5)
     for i in range(ns):
         nv = rng.randint(1, 3)
-        ncheck = rng.randint(0 if rng.random() < 0.1 else 1, nv)
+        ncheck = 0 if rng.random() < 0.12 else rng.randint(1, nv)          # BaseModel's default CHECK is the empty list
         check = rng.sample(range(nv), ncheck)
         endo = rng.sample(range(nv), rng.randint(0, nv))
         passes = {}
@@ -1149,6 +1201,44 @@ def built_case(rng, kind):
 SPAN_KINDS = ['list', 'tuple', 'range', 'ndarray', 'index', 'period', 'datetime']
 
 
+def history_case(rng):
+    """2-4 solve_t calls on one scripted linker: the same or another period, the same or another selection (a submodel
+    selected in one call and not in the next keeps what the earlier call stamped), other option values; failures='ignore'
+    mostly so that the history goes on after a failed period (an exception does not stop the history either)"""
+    c = random_case(rng, 'solve_t')
+    while not c['subs']:
+        c = random_case(rng, 'solve_t')
+    n, ids = c['n'], [s['id'] for s in c['subs']]
+    # scripts and hooks for every position, so that calls at other periods do something too
+    p0 = _pos(c)
+    for s in c['subs']:
+        base = s['passes'].get(str(p0), [])
+        s['passes'] = {str(p): copy.deepcopy(base) if p == p0 or rng.random() < 0.7 else [] for p in range(n)}
+    if c['hooks']:
+        h0 = c['hooks'].get(str(p0))
+        c['hooks'] = {str(p): copy.deepcopy(h0) for p in range(n) if h0 and (p == p0 or rng.random() < 0.6)}
+    calls = []
+    t = c['t']
+    for i in range(rng.randint(2, 4)):
+        o = dict(c['opts'])
+        o['offset'] = 0
+        if rng.random() < 0.8:
+            o['failures'] = 'ignore'
+        if i and rng.random() < 0.5:
+            o['max_iter'] = rng.randint(0, 5)
+            o['min_iter'] = rng.randint(0, max(o['max_iter'], 0) + (1 if rng.random() < 0.1 else 0))
+        if i and rng.random() < 0.4:
+            p = rng.randrange(n)
+            t = p if rng.random() < 0.6 else p - n
+        r = rng.random()
+        sel = None if r < 0.35 else rng.sample(ids, rng.randint(0, len(ids)))
+        if sel is not None and rng.random() < 0.06:
+            sel.insert(rng.randint(0, len(sel)), 99)
+        calls.append({'t': t, 'sel': sel, 'opts': o})
+    c.update(kind='history', calls=calls, sel=calls[0]['sel'], opts=calls[0]['opts'], t=calls[0]['t'])
+    return c
+
+
 def ctor_cases(rng, count):
     """constructor over 0-4 submodels: one container kind or mixed kinds; later spans equal to the first, or different in
     length (shorter / longer / empty) or at one position (first / middle / last) or shifted; differing LAGS / LEADS"""
@@ -1222,6 +1312,16 @@ def fixed_cases():
     out.append(mk_case(core=core, subs=two(settle([1.0] * 4), settle([1.0] * 4)),
                        hooks={'1': {'after': [[['set', 0, 0, lib.fhex(float(k))]] for k in (1, 2, 3, 3)]}}, max_iter=5))
     out.append(mk_case(subs=two(settle([1.0] * 4), settle([1.0, 2.0, 3.0, 3.0])), max_iter=5))
+    # empty check lists (the BaseModel default): a selected submodel that contributes nothing to the convergence test is still
+    # evaluated, counted and stamped; with every check list empty the period is solved at iteration max(1, min_iter)
+    for mn, mx in ((0, 4), (2, 4), (3, 2), (0, 0)):
+        a, b = two(settle([1.0, 2.0, 3.0, 3.0]), settle([1.0, 2.0, 2.0, 2.0]))
+        a['check'] = []
+        out.append(mk_case(subs=[a, b], min_iter=mn, max_iter=mx, failures='ignore'))
+        out.append(mk_case(subs=[a, b], sel=[0], min_iter=mn, max_iter=mx, failures='ignore'))
+        b2 = copy.deepcopy(b)
+        b2['check'] = []
+        out.append(mk_case(subs=[a, b2], sel=[1, 0], min_iter=mn, max_iter=mx, failures='ignore'))
     # cross-link through the hooks: B.V1 = A.V0 before, L0 = 0.5*B.V0 after
     out.append(mk_case(core=mk_comp(1, n, [0]), subs=two(settle([1.0, 1.5, 1.5]), [[['affine', 0, lib.fhex(0.5), 1, lib.fhex(0.0)]]] * 4),
                        hooks={'1': {'before': [[['affine', 2, 1, lib.fhex(1.0), 1, 0, lib.fhex(0.0)]]] * 4,
@@ -1261,6 +1361,8 @@ def gen(rng, tier):
     cases += ctor_cases(rng, 300 if quick else 5000)
     for _ in range(300 if quick else 5000):
         cases.append(built_case(rng, 'solve_t' if rng.random() < 0.65 else 'solve'))
+    for _ in range(200 if quick else 4000):           # histories: 2-4 calls on one linker
+        cases.append(history_case(rng))
     for _ in range(200 if quick else 4000):           # copies: solve the copy (or the original), the other one must not move
         c = built_case(rng, 'solve_t') if rng.random() < 0.3 else random_case(rng, 'solve_t')
         c.update(kind='copy', copy_how=rng.choice(['copy', 'copy', 'copy.copy', 'deepcopy']), solve_which=rng.choice(['copy', 'copy', 'orig']))
